@@ -51,12 +51,14 @@ fn fast_gnp_random_graph_directed(
         graph.add_node(Node::from_name(i));
     }
     let mut w: i32 = -1;
-    let lp = (1.0 - edge_probability).ln();
+    // ln(1 - p), accurate (and non-zero) for p below the f64 epsilon as well
+    let lp = (-edge_probability).ln_1p();
     let mut v = 0;
     let mut edges = vec![];
     while v < num_nodes {
         let lr: f64 = (1.0_f64 - rng.gen::<f64>()).ln();
-        w = w + 1 + ((lr / lp) as i32);
+        // the cast saturates for huge skips; so must the cursor
+        w = w.saturating_add(1).saturating_add((lr / lp) as i32);
         if v == w {
             w += 1;
         }
@@ -87,12 +89,14 @@ fn fast_gnp_random_graph_undirected(
         graph.add_node(Node::from_name(i));
     }
     let mut w: i32 = -1;
-    let lp = (1.0 - edge_probability).ln();
+    // ln(1 - p), accurate (and non-zero) for p below the f64 epsilon as well
+    let lp = (-edge_probability).ln_1p();
     let mut v = 1;
     let mut edges = vec![];
     while v < num_nodes {
         let lr: f64 = (1.0_f64 - rng.gen::<f64>()).ln();
-        w = w + 1 + ((lr / lp) as i32);
+        // the cast saturates for huge skips; so must the cursor
+        w = w.saturating_add(1).saturating_add((lr / lp) as i32);
         while w >= v && v < num_nodes {
             w -= v;
             v += 1;
